@@ -302,11 +302,17 @@ func getThresholdMatching(typ core.DutyType, sigs []core.ParSignedData, threshol
 		sigsByMsgRoot[root] = append(sigsByMsgRoot[root], sig)
 	}
 
-	// Return true if we have "threshold" number of signatures.
-	for _, set := range sigsByMsgRoot {
-		if len(set) == threshold {
-			return set, true, nil
-		}
+	// Return true if the newly stored partial signature (always the last element) completed
+	// "threshold" number of matching signatures. Only its group can have just reached the threshold;
+	// checking all groups would trigger again for a group that reached it earlier
+	// whenever a later partial signature with a different message root is stored.
+	newRoot, err := sigs[len(sigs)-1].MessageRoot()
+	if err != nil {
+		return nil, false, err
+	}
+
+	if set := sigsByMsgRoot[newRoot]; len(set) == threshold {
+		return set, true, nil
 	}
 
 	return nil, false, nil
